@@ -41,3 +41,24 @@ Print Assumptions C03_tc_sound_partial.
 Print Assumptions C03_tc_rejects_partial.
 Print Assumptions C03_tc_complete_term.
 Print Assumptions C03_tc_sound_term.
+
+(* ---- the case analysis of the model is the dispatch of the source (gen/Operators.v and gen/Dispatch.v are
+   REGENERATED from pysmt/operators.py and the walker classes on every run; qualified names only) *)
+From PySMT.gen Require Operators Dispatch.
+From PySMT.proofs Require Operators_proofs Dispatch_tc_proofs.
+Theorem C03_operator_table_matches_source :
+  (forall n, List.In n Operators.all_node_types) /\
+  (forall a b, Operators.nt_id a = Operators.nt_id b -> a = b) /\
+  (forall o, Operators.nt_modelled (Operators.nt_of_op o) = true) /\
+  (forall n, Operators.nt_modelled n = false <-> n = Operators.NT_ALGEBRAIC_CONSTANT).
+Proof.
+  exact (conj Operators_proofs.all_node_types_complete (conj Operators_proofs.nt_id_injective
+         (conj Operators_proofs.nt_of_op_modelled Operators_proofs.only_algebraic_constant_unmodelled))).
+Qed.
+
+(* the model's rule for an operator is the rule of the walk_* method SimpleTypeChecker dispatches it to *)
+Theorem C03_dispatch_matches_source : forall o, exists h,
+  Dispatch_tc_proofs.tc_handler_of_name (Dispatch.tc_dispatch (Operators.nt_of_op o)) = Some h /\
+  forall args, tc_rule o args = Dispatch_tc_proofs.tc_handler_rule h o args.
+Proof. exact Dispatch_tc_proofs.tc_dispatch_matches_source. Qed.
+Print Assumptions C03_dispatch_matches_source.
